@@ -61,6 +61,39 @@ def install_stub():
     return box, cleanup
 
 
+def stub_seam_works(box) -> bool:
+    """The stub codec is only usable when the encoder looks codecs up by name; otherwise only real definitions are sent."""
+    box[250] = b"\x01\x02\x03\x04\x05\x06\x07\x08\x09"
+    try:
+        pk = NMEA2000Encoder().encode_ebyte(NMEA2000Message(PGN=STUB_PGN, id="verifStub", priority=3, source=250, destination=255))
+        return len(pk) == 2
+    except Exception:  # noqa: BLE001
+        return False
+
+
+def long_message(dbx, rng, box, src, nbytes):
+    """A multi-frame message from source `src`: the stub codec with an arbitrary payload when the seam is there,
+    otherwise a real encodable fast-packet definition of at least 14 bytes."""
+    if box.get("_seam", True):
+        box[src] = bytes((src * 3 + k) % 256 for k in range(nbytes))
+        return NMEA2000Message(PGN=STUB_PGN, id="verifStub", priority=3, source=src, destination=255)
+    defs = [d for d in dbx.defs if d.encodable and d.type == "Fast" and (d.length or 0) >= 14 and not any(f.offset is not None for f in d.fields)]
+    dec = NMEA2000Decoder()
+    for _ in range(50):
+        d = rng.choice(defs)
+        p = dbx.pack(d, gen.base_raws(d, rng, dbx))
+        if dbx.select(d.pgn, p) is not d:
+            continue
+        try:
+            m = dec.decode_basic_string(wire.plain_line(3, d.pgn, src, 255, p.to_bytes(d.length, "little")), already_combined=True)
+            NMEA2000Encoder().encode_ebyte(m)
+        except Exception:  # noqa: BLE001
+            continue
+        m.source = src
+        return m
+    raise RuntimeError("no encodable multi-frame definition available")
+
+
 def make_messages(dbx, rng, n, box):
     """n messages with unique source addresses; a mix of single-frame, real fast-packet and stub (long) messages."""
     dec = NMEA2000Decoder()
@@ -69,7 +102,7 @@ def make_messages(dbx, rng, n, box):
     for i in range(n):
         src = 10 + i
         r = rng.random()
-        if r < 0.35:
+        if r < 0.35 and box.get("_seam", True):
             nbytes = rng.choice([7, 13, 14, 50, 100, 223])
             box[src] = bytes((src * 7 + k) % 256 for k in range(nbytes))
             m = NMEA2000Message(PGN=STUB_PGN, id="verifStub", priority=rng.randrange(8), source=src, destination=255)
@@ -190,12 +223,15 @@ def run_concurrent(spec, acc):
     rng = gen.rng_for(spec["seed"], ID, spec["name"])
     quick = spec["tier"] == "quick"
     box, cleanup = install_stub()
+    box["_seam"] = stub_seam_works(box)
+    if not box["_seam"]:
+        acc.note("stub codec seam unavailable: only real definitions are sent, bounded-exhaustive stub part skipped")
 
     def fast_of(m):
         return m.PGN == STUB_PGN or any(d.type == "Fast" for d in dbx.by_pgn.get(m.PGN, []))
     try:
         # (a) bounded exhaustive: 2 messages of 2-3 frames, every pause/no-pause pattern over the first writes
-        for rep in range(2 if quick else 10):
+        for rep in range((2 if quick else 10) if box["_seam"] else 0):
             msgs = []
             for i in range(2):
                 src = 10 + i
@@ -300,9 +336,9 @@ def run_write_failure(spec, acc):
     rng = gen.rng_for(spec["seed"], ID, spec["name"])
     quick = spec["tier"] == "quick"
     box, cleanup = install_stub()
+    box["_seam"] = stub_seam_works(box)
     try:
-        box[40] = bytes(range(40))
-        m = NMEA2000Message(PGN=STUB_PGN, id="verifStub", priority=3, source=40, destination=255)
+        m = long_message(dbx, rng, box, 40, 40)
         n = len(reference_packets(kind, m))
         for i in range(n):
             async def scenario(sim, i=i):
@@ -341,13 +377,13 @@ def run_reconnect_during_send(spec, acc):
     rng = gen.rng_for(spec["seed"], ID, spec["name"])
     quick = spec["tier"] == "quick"
     box, cleanup = install_stub()
+    box["_seam"] = stub_seam_works(box)
     try:
         for rep in range(40 if quick else 3000):
             nA, nB, nC = rng.choice([20, 27, 50]), rng.choice([13, 20, 40]), rng.choice([7, 13, 27])
             msgs = []
             for src, n in ((10, nA), (11, nB), (12, nC)):
-                box[src] = bytes((src * 3 + k) % 256 for k in range(n))
-                msgs.append(NMEA2000Message(PGN=STUB_PGN, id="verifStub", priority=3, source=src, destination=255))
+                msgs.append(long_message(dbx, rng, box, src, n))
             park_after = rng.randint(1, 3)            # sender A parks after this many packets
             park_steps = 10 ** 7                     # parked until the scenario resumes the link explicitly
             resume_after = rng.randint(0, 12)         # loop steps between starting the new sends and A's resumption
@@ -422,6 +458,8 @@ def run_reconnect_during_send(spec, acc):
                 for m in msgs:
                     got = norm([d for s_, d in pk if s_ == m.source], True)
                     want = norm(reference_packets(kind, m), True)
+                    if len(want) < 2:
+                        continue
                     if got and not any(want[i:i + len(got)] == got for i in range(len(want) - len(got) + 1)):
                         acc.violation("message-packets-differ-from-encoder", f"{kind}: link {conn.id}: packets of source {m.source} are not a slice of the encoder's packets", dict(w, link=conn.id))
                     acc.count("messages_attributed")
@@ -437,6 +475,9 @@ def run_many(spec, acc):
     rng = gen.rng_for(spec["seed"], ID, spec["name"])
     quick = spec["tier"] == "quick"
     box, cleanup = install_stub()
+    box["_seam"] = stub_seam_works(box)
+    if not box["_seam"]:
+        acc.note("stub codec seam unavailable: only real definitions are sent, bounded-exhaustive stub part skipped")
 
     def fast_of(m):
         return m.PGN == STUB_PGN or any(d.type == "Fast" for d in dbx.by_pgn.get(m.PGN, []))
